@@ -5,7 +5,9 @@ package c05
 import (
 	"bytes"
 	"fmt"
+	"os"
 	"sort"
+	"strings"
 
 	"seehuhn.de/go/pdf/zzverif/ref/pdffile"
 )
@@ -34,6 +36,12 @@ var structKeys = map[string]bool{
 	"Predictor": true, "Dests": true, "Names": true, "Metadata": true, "Info": true, "Encrypt": true, "Extends": true,
 	"Widths": true, "Encoding": true, "CIDSystemInfo": true, "CIDToGIDMap": true, "Font": true, "F1": true, "F2": true,
 }
+
+// linkKeys are the keys whose reference values hold the recursive structures
+// of a document together (outline, page tree, name tree).  The pair space
+// "pair-ll" rewires every two of these sites to every node of those
+// structures.
+var linkKeys = map[string]bool{"Kids": true, "Parent": true, "First": true, "Last": true, "Next": true, "Prev": true, "Outlines": true, "Pages": true, "Dests": true}
 
 var pairIntMenu = []string{"0", "1", "-1", "65536", "2147483648", "9223372036854775807", "123456789012345678901234567890"}
 
@@ -71,6 +79,8 @@ type seedSpace struct {
 	structI  [][]site // structural subset: integer sites, per layer
 	structR  [][]site // structural subset: reference sites, per layer
 	pairRefT []int
+	linkR    [][]site // reference sites under linkKeys, per layer
+	linkT    []int    // object numbers of the nodes of the linked structures (objects holding or receiving such a reference)
 }
 
 // group is a contiguous range of case indices.
@@ -88,6 +98,8 @@ type table struct {
 	starts []int
 	total  int
 	dims   map[string]any
+
+	chainLen int // filter chains of length 1..chainLen
 }
 
 // Mut identifies a mutant (JSON-able; informational in replays, the mutated file itself is stored too).
@@ -174,14 +186,24 @@ func newSeedSpace(m *model) *seedSpace {
 	// structural subset for the pair space (layer 0 and object stream layers)
 	sp.structI = make([][]site, len(m.layers))
 	sp.structR = make([][]site, len(m.layers))
+	sp.linkR = make([][]site, len(m.layers))
+	linkNodes := map[int]bool{}
 	for li, l := range m.layers {
 		for i := range l.toks {
 			if l.toks[i].kind != tName || !structKeys[l.name(i)] || i+1 >= len(l.toks) {
 				continue
 			}
+			isLink := linkKeys[l.name(i)]
 			add := func(j int) {
 				if l.isRef(j) {
 					sp.structR[li] = append(sp.structR[li], site{li, j})
+					if isLink {
+						sp.linkR[li] = append(sp.linkR[li], site{li, j})
+						linkNodes[int(l.toks[j].ival)] = true
+						if self := sp.selfNum(site{li, j}); self > 0 {
+							linkNodes[self] = true
+						}
+					}
 				} else if l.toks[j].kind == tInt && !(j >= 1 && l.isRef(j-1)) {
 					sp.structI[li] = append(sp.structI[li], site{li, j})
 				}
@@ -229,6 +251,10 @@ func newSeedSpace(m *model) *seedSpace {
 		}
 	}
 	sp.pairRefT = []int{pages, root, firstStream, m.size - 1, m.size + 5}
+	for n := range linkNodes {
+		sp.linkT = append(sp.linkT, n)
+	}
+	sort.Ints(sp.linkT)
 	return sp
 }
 
@@ -296,6 +322,15 @@ func buildTable(seeds []*Seed, thorough bool) (*table, error) {
 	t := &table{seeds: seeds, dims: map[string]any{}}
 	var names []string
 	var sizes []int
+	// crafted hostile structures (crafted.go): not mutations, no seed
+	for st, cs := range craftStructs {
+		t.groups = append(t.groups, group{seed: -1, kind: "craft-" + cs.name, n: len(craftCases(st)), layer: st})
+	}
+	t.chainLen = 3
+	if thorough {
+		t.chainLen = 4
+	}
+	t.groups = append(t.groups, group{seed: -1, kind: "craft-filters", n: chainCount(t.chainLen) * len(chainPayloadNames)})
 	for si, s := range seeds {
 		m, err := buildModel(s)
 		if err != nil {
@@ -328,6 +363,15 @@ func buildTable(seeds []*Seed, thorough bool) (*table, error) {
 		add("sdec", nd*4)
 		add("strunc", len(sp.strunc)*2)
 		add("splice", sp.nobj*sp.nobj)
+		if thorough || si == 0 {
+			// all pairs of link rewirings among the nodes of the outline / page tree / name tree
+			// (quick: first seed only)
+			for li := range m.layers {
+				if n := pairCount(len(sp.linkR[li])) * len(sp.linkT) * len(sp.linkT); n > 0 {
+					t.groups = append(t.groups, group{seed: si, kind: "pair-ll", n: n, layer: li})
+				}
+			}
+		}
 		if thorough {
 			nm := len(pairIntMenu)
 			for li := range m.layers {
@@ -345,6 +389,15 @@ func buildTable(seeds []*Seed, thorough bool) (*table, error) {
 				}
 			}
 		}
+	}
+	if only := os.Getenv("C05_ONLY"); only != "" {
+		var keep []group
+		for _, g := range t.groups {
+			if strings.HasPrefix(g.kind, only) {
+				keep = append(keep, g)
+			}
+		}
+		t.groups = keep
 	}
 	t.starts = make([]int, len(t.groups))
 	per := map[string]int{}
@@ -375,6 +428,26 @@ func buildTable(seeds []*Seed, thorough bool) (*table, error) {
 			seeds[i].Name, len(sp.toks), len(sp.ints), len(sp.refs), len(sp.names), sp.nobj, len(sp.streams), len(sp.region), count2(sp.structI), count2(sp.structR), len(sp.m.layers)))
 	}
 	t.dims["sites_per_seed"] = sites
+	var lsites []string
+	for i, sp := range t.spaces {
+		if thorough || i == 0 {
+			lsites = append(lsites, fmt.Sprintf("%s: link_sites=%d link_targets=%d", seeds[i].Name, count2(sp.linkR), len(sp.linkT)))
+		}
+	}
+	t.dims["pair_ll_sites"] = lsites
+	var cs []string
+	for st, s := range craftStructs {
+		cs = append(cs, fmt.Sprintf("%s: slots=%d cases=%d", s.name, s.slots, len(craftCases(st))))
+	}
+	t.dims["crafted_structures"] = cs
+	t.dims["crafted_link_targets"] = linkTargets
+	t.dims["crafted_sizes"] = craftSmall
+	t.dims["crafted_sizes_large_at_most_one_forward_slot"] = craftLarge
+	t.dims["crafted_nest_variants"] = craftStructs[len(craftStructs)-1].vars
+	t.dims["filter_chain_alphabet"] = filterNames
+	t.dims["filter_chain_max_length"] = t.chainLen
+	t.dims["filter_chain_payloads"] = chainPayloadNames
+	t.dims["filter_chains"] = chainCount(t.chainLen)
 	return t, nil
 }
 
@@ -415,6 +488,9 @@ func unpair(k, n int) (int, int) {
 // means the mutation is the identity at that site (counted as trivial).
 func (t *table) mutant(idx int) (data []byte, mu Mut, trivial bool, err error) {
 	g, k := t.locate(idx)
+	if g.seed < 0 {
+		return t.crafted(g, k)
+	}
 	sp := t.spaces[g.seed]
 	m := sp.m
 	mu = Mut{Seed: t.seeds[g.seed].Name, Kind: g.kind, Index: k}
@@ -572,6 +648,19 @@ func (t *table) mutant(idx int) (data []byte, mu Mut, trivial bool, err error) {
 			es = []edit{{f.toks[oj.objKw].b, f.toks[oj.endKw].a, append([]byte{}, src...)}}
 		}
 		mu.Desc = fmt.Sprintf("body of object %d spliced into object %d", m.objs[i].num, oj.num)
+	case "pair-ll":
+		sL := sp.linkR[g.layer]
+		nt := len(sp.linkT)
+		a, b := unpair(k/(nt*nt), len(sL))
+		s1, s2 := sL[a], sL[b]
+		t1, t2 := sp.linkT[k/nt%nt], sp.linkT[k%nt]
+		l := m.layers[g.layer]
+		if int(l.toks[s1.tok].ival) == t1 && int(l.toks[s2.tok].ival) == t2 {
+			trivial = true
+		}
+		mu.Desc = fmt.Sprintf("link pair: -> %d 0 R at %s; -> %d 0 R at %s", t1, ctx(s1), t2, ctx(s2))
+		li = g.layer
+		es = []edit{{l.toks[s1.tok].a, l.toks[s1.tok].b, itoa(t1)}, {l.toks[s2.tok].a, l.toks[s2.tok].b, itoa(t2)}}
 	case "pair-ii", "pair-rr", "pair-ir":
 		var s1, s2 site
 		var v1, v2 []byte
@@ -618,6 +707,27 @@ func (t *table) mutant(idx int) (data []byte, mu Mut, trivial bool, err error) {
 		trivial = true
 	}
 	return out, mu, trivial, nil
+}
+
+// crafted builds case k of a crafted group.
+func (t *table) crafted(g group, k int) ([]byte, Mut, bool, error) {
+	mu := Mut{Seed: "crafted", Kind: g.kind, Index: k}
+	if g.kind == "craft-filters" {
+		pl, err := chainPayloads()
+		if err != nil {
+			return nil, mu, false, err
+		}
+		chain := chainAt(k / len(pl))
+		p := k % len(pl)
+		mu.Desc = fmt.Sprintf("crafted: stream with /Filter [%s] over a body whose first layer decodes to the %s payload", strings.Join(chain, " "), chainPayloadNames[p])
+		return buildChainFile(chain, pl[p]), mu, false, nil
+	}
+	cs := craftCases(g.layer)
+	if k >= len(cs) {
+		return nil, mu, false, fmt.Errorf("crafted case %d out of range", k)
+	}
+	mu.Desc = "crafted: " + cs[k].String()
+	return cs[k].build(), mu, false, nil
 }
 
 func count2(x [][]site) int {
